@@ -43,6 +43,10 @@ pub struct Profile {
     /// placed right after each other: faults and repairs land on state that is still in flight)
     #[serde(default)]
     pub motif_pct: u32,
+    /// per-step probability (percent) that a client repeats its previous call with the same
+    /// arguments (idempotence, second-call effects)
+    #[serde(default)]
+    pub repeat_pct: u32,
 }
 
 impl Profile {
@@ -73,6 +77,7 @@ impl Profile {
             locality_pct: *rng.pick(&[0u32, 50, 80, 95]),
             representable_ns_only: false,
             motif_pct: 0,
+            repeat_pct: *rng.pick(&[0u32, 2, 5]),
         }
     }
 }
